@@ -52,7 +52,7 @@ func c17Trans(c *Ctx, pre *Node, st Step, res *Result, post *State) ([]Violation
 		}
 		// add and status use the same notion of "excluded", whatever reading of the ignore file one takes:
 		// once `add .` has succeeded, every file is either staged or excluded, so status lists nothing untracked
-		if len(vs) == 0 && res.Exit == 0 && len(st.Args) == 2 && (st.Args[1] == "." || st.Args[1] == "./") && qa.IndexErr == nil {
+		if len(vs) == 0 && res.Exit == 0 && len(st.Args) == 2 && cleanArg(st.Args[1]) == "." && qa.IndexErr == nil {
 			// ... and what it staged anew is what status showed as untracked before
 			if rb, _ := c.Probe(pre.State, nil, "status"); rb.Exit == 0 && pa.IndexErr == nil {
 				shown := map[string]bool{}
@@ -96,8 +96,8 @@ func c17Trans(c *Ctx, pre *Node, st Step, res *Result, post *State) ([]Violation
 
 func checkC17(e *RunEnv) *CheckResult {
 	files := []string{"a", "sub/b", "build/o", "x.log", "sub/y.log", "my.goit/f", "goit/g", "a.logx", "build2/p", ".goit-hooks/h", "sub/.goit", "sub/build", "p.tar.gz", "nest/.goit/q", "a.b/f", "axb/f", "src/build/Makefile", "src/build/gen.c", "sub/old.log/x.txt", "old.log/y.txt"}
-	addArgs := []string{".", "./", "sub", "sub/..", "build", "build/o", "x.log", ".goit", ".goit/HEAD", "a", "my.goit", "goit"}
-	ignores := []string{"build/\n", "*.log\n", "build/\n*.log\n", "build/\r\n*.log\r\n", "*.tar.gz\n", "build/\n\n*.log\n", "a.b/\n"}
+	addArgs := []string{"@ROOT@", "@ROOT@/.goit/HEAD", "@ROOT@/sub", "../root", "../root/.goit/HEAD", ".", "./", "sub", "sub/..", "build", "build/o", "x.log", ".goit", ".goit/HEAD", "a", "my.goit", "goit"}
+	ignores := []string{"build/\n", "*.log\n", "build/\n*.log\n", "build/\r\n*.log\r\n", "*.tar.gz\n", "build/\n\n*.log\n", "a.b/\n", "root/\n"}
 	var seedFiles []Step
 	seedFiles = append(seedFiles, seedS0()...)
 	for _, f := range files {
@@ -115,7 +115,7 @@ func checkC17(e *RunEnv) *CheckResult {
 			var steps []Step
 			for _, x := range addArgs {
 				t := unionTags(pathArgTags(a, []string{x}), st)
-				if x == "." || x == "./" || x == "sub/.." {
+				if x == "." || x == "./" || x == "sub/.." || x == "@ROOT@" || x == "../root" {
 					t = append(t, "arg-is-parent-of-metadata")
 				}
 				steps = append(steps, Run("add", x).WithTags(t...))
